@@ -1312,3 +1312,99 @@ Proof.
   - rewrite E1. apply B; [discriminate|]. intros op Hop. destruct op; cbn in *; try discriminate; split; congruence.
   - rewrite F1. apply (B (fun op => s3op_eqb op OpHead) SSub); [discriminate|]. intros op Hop. destruct op; cbn in *; try discriminate; split; congruence.
 Qed.
+
+(** * Part 8 (C10): the statements *)
+Lemma NoDup_app_r (l1 l2 : list Z) : NoDup (l1 ++ l2) -> NoDup l2.
+Proof. induction l1 as [|x r IH]; cbn; [auto|]. intros H. inversion H; auto. Qed.
+
+Theorem queue_is_queued a b c d e f g h s st :
+  reachable (init a b c d e f g h) s -> st <> SInline ->
+  let G := get_stage s st in
+  NoDup (g_queue G) /\ NoDup (g_history G) /\
+  (forall k, In k (g_queue G) <-> task_at s k st (fun v => v = TQueued)) /\
+  (forall k, In k (g_history G) <-> task_at s k st (fun v => v <> TSubmitting)) /\
+  exists started, g_history G = started ++ g_queue G /\
+    forall k, In k started -> task_at s k st (fun v => v <> TSubmitting /\ v <> TQueued).
+Proof.
+  intros Hr Hst G. destruct (queue_inv_reachable _ _ _ _ _ _ _ _ _ Hr st Hst) as [[pre Q1] Q2 Q3 Q4].
+  fold G in Q1, Q2, Q3, Q4.
+  split; [rewrite Q1 in Q2; now apply NoDup_app_r in Q2|].
+  split; [exact Q2|]. split; [exact Q4|]. split; [exact Q3|].
+  exists pre. split; [exact Q1|]. intros k Hk.
+  assert (Hh : In k (g_history G)) by (rewrite Q1; apply in_or_app; now left).
+  apply Q3 in Hh as (x & Hx & Hs & Hn). exists x. split; [exact Hx|]. split; [exact Hs|].
+  split; [exact Hn|]. intros Hq.
+  assert (Hin : In k (g_queue G)) by (apply Q4; exists x; auto).
+  rewrite Q1 in Q2. clear - Q2 Hk Hin. induction pre as [|y r IH]; [contradiction|].
+  cbn in Q2. inversion Q2 as [|? ? Hy Hr]; subst. destruct Hk as [->|Hk]; [|now apply IH].
+  apply Hy. apply in_or_app. now right.
+Qed.
+
+Theorem permit_conservation a b c d e f g h s i cap :
+  1 <= d -> 1 <= e -> 1 <= f -> 1 <= g -> 1 <= h ->
+  reachable (init a b c d e f g h) s -> 0 <= i -> caps d e f g h i = Some cap ->
+  exists free, find_sem i (sems s) = Some free /\ 0 <= free /\
+               free + count (holds i) (tasks s) = cap.
+Proof.
+  intros Hd He Hf Hg Hh Hr Hi Hc.
+  exact (sem_inv_reachable a b c d e f g h s ltac:(lia) ltac:(lia) ltac:(lia) ltac:(lia) ltac:(lia) Hr i cap Hi Hc).
+Qed.
+
+Definition occupying (v : tst) : bool := (cls v =? 1) || (cls v =? 2).
+
+Theorem stage_occupancy_le_permits a b c d e f g h s i cap :
+  1 <= d -> 1 <= e -> 1 <= f -> 1 <= g -> 1 <= h ->
+  reachable (init a b c d e f g h) s -> 0 <= i -> caps d e f g h i = Some cap ->
+  count (fun x => holds i x && occupying (k_st x)) (tasks s) <= cap.
+Proof.
+  intros Hd He Hf Hg Hh Hr Hi Hc.
+  destruct (permit_conservation a b c d e f g h s i cap Hd He Hf Hg Hh Hr Hi Hc) as (v & _ & Hv & Hs).
+  assert (count (fun x => holds i x && occupying (k_st x)) (tasks s) <= count (holds i) (tasks s)).
+  { apply count_le. intros x _ Hx. now apply andb_prop in Hx as [Hx _]. }
+  lia.
+Qed.
+
+(** every queued or running task of a stage holds an unreleased permit *)
+Theorem occupying_holds_permit a b c d e f g h s k x :
+  reachable (init a b c d e f g h) s -> find_task k (tasks s) = Some x ->
+  k_stage x <> SInline -> occupying (k_st x) = true ->
+  0 <= k_permit x /\ k_released x = false.
+Proof.
+  intros Hr Hx Hs Ho. split.
+  - revert Hs Ho. revert k x Hx.
+    apply (task_inv_reachable (fun x => k_stage x <> SInline -> occupying (k_st x) = true -> 0 <= k_permit x)
+             (init a b c d e f g h)); [reflexivity| | |exact Hr].
+    + intros s0 a0 k t g0 final deps kind _ Hs Ho. unfold fresh_task in *. cbn [k_stage k_st] in *.
+      rewrite stage_eqb_neq in Ho by exact Hs. discriminate Ho.
+    + intros s0 x y Hts Hx. destruct Hts; cbn [k_stage k_st k_permit with_st with_flags with_phase with_assoc with_permit with_released];
+        try exact Hx; intros Hs Ho; try (apply Hx; [exact Hs|]);
+        try match goal with H : k_st _ = _ |- _ => rewrite H in *; cbn in *; try discriminate; try reflexivity end;
+        try assumption.
+      all: try (destruct (k_final x); match goal with H : k_st _ = _ |- _ => rewrite H; reflexivity end).
+      all: cbn in Ho; discriminate.
+  - destruct (k_released x) eqn:E; [|reflexivity].
+    rewrite (released_ended _ _ _ _ _ _ _ _ _ Hr k x Hx E) in Ho. discriminate.
+Qed.
+
+Theorem submit_blocks_when_full s a k sem s' :
+  step s (EAcquire a k sem) = Some s' -> exists v, find_sem sem (sems s) = Some v /\ 0 < v.
+Proof.
+  cbn [step]. intros H. destruct (find_task k (tasks s)); [|discriminate].
+  destruct (find_sem sem (sems s)) as [v|]; [|discriminate]. exists v. split; [reflexivity|].
+  inv H. split_ands. lia.
+Qed.
+
+Theorem manager_permits_restored a b c d e f g h s i cap :
+  1 <= d -> 1 <= e -> 1 <= f -> 1 <= g -> 1 <= h ->
+  reachable (init a b c d e f g h) s -> 0 <= i -> caps d e f g h i = Some cap ->
+  (forall x, In x (tasks s) -> k_permit x = -1 \/ k_released x = true) ->
+  find_sem i (sems s) = Some cap.
+Proof.
+  intros Hd He Hf Hg Hh Hr Hi Hc Hall.
+  destruct (permit_conservation a b c d e f g h s i cap Hd He Hf Hg Hh Hr Hi Hc) as (v & Hv & _ & Hs).
+  rewrite count_zero in Hs.
+  - rewrite Hv. f_equal. lia.
+  - intros x Hx. unfold holds. destruct (Hall x Hx) as [E|E]; rewrite E.
+    + assert (E2 : -1 =? i = false) by lia. now rewrite E2.
+    + apply andb_false_r.
+Qed.
